@@ -139,14 +139,19 @@ def run(prop, tier, seed, workdir, t0, replay):
         keep = []
         for s, f in fresh:
             sk = s.details.get("skeleton", {"intact": True})
-            if getattr(f, "strength", "hard") == "hard" and sk.get("intact", True):
+            if s.backend.startswith("kani"):
+                # a FAILED Kani check is a concrete failing execution of the harness on the compiled real code
                 keep.append((s, f))
             else:
-                why = "loop invariant only" if getattr(f, "strength", "hard") == "soft" else "code shape changed: " + json.dumps({k: v for k, v in sk.items() if k != "intact" and v})
+                # a failed Verus obligation without a failing input is an unproved obligation, not a demonstrated
+                # violation: even a hard obligation in an unchanged control structure can fail because an equivalent
+                # rewrite (`+ 1` -> `| 1`, `1 << 5` -> `0x20`) needs a proof hint the sidecar does not have
+                why = ("loop invariant" if getattr(f, "strength", "hard") == "soft" else "hard obligation") + \
+                      ("" if sk.get("intact", True) else "; code shape changed: " + json.dumps({k: v for k, v in sk.items() if k != "intact" and v}))
                 downgraded.append((s, f, why))
         if not keep:
             for s, f, why in downgraded:
-                s.undecided.append(f"{f.name} failed ({f.message}) but no failing input was found and the failure is not decisive ({why})")
+                s.undecided.append(f"{f.name} failed ({f.message}) and no failing input was found among the twin's search: unproved, not a demonstrated violation ({why})")
                 undecided.append((s, s.undecided[-1]))
             fresh = []
             if replay_path and os.path.exists(replay_path):
